@@ -166,7 +166,7 @@ func main() {
 		sort.Strings(fo.Models)
 		n := 0
 		for _, o := range fx.obls {
-			if kre.MatchString(o.Name) {
+			if kindSelected(kre, o.Name) {
 				allObls = append(allObls, o)
 				n++
 			}
@@ -671,4 +671,19 @@ func loadUnitByName(name, repo, specs string) (*Unit, error) {
 		return LoadUnit("api", filepath.Join(repo, "internal", "app"), []string{"./api"}, []string{"GOFLAGS=", "GOPROXY=off", "GOWORK=" + filepath.Join(repo, "go.work")}, "verif", append(libContracts, ac...), specs)
 	}
 	return nil, fmt.Errorf("unknown unit %q", name)
+}
+
+// an obligation raised inside an inlined contract-less helper is named <func>/inl.<helper>:<kind>…; a kind
+// selection such as "/(nopanic|pre:)" must select it exactly as it would select the same obligation of the
+// caller's own body (seed C10-h: a slice-bounds obligation of an inlined helper escaped C10's selection)
+var inlSegRe = regexp.MustCompile(`/(inl\.[^:/]+:)+`)
+
+func kindSelected(kre *regexp.Regexp, name string) bool {
+	if kre.MatchString(name) {
+		return true
+	}
+	if strings.Contains(name, "/inl.") {
+		return kre.MatchString(inlSegRe.ReplaceAllString(name, "/"))
+	}
+	return false
 }
